@@ -121,6 +121,14 @@ func main() {
 			}
 			if lname == "X0" {
 				sizes = append(sizes, 256*C+1, 257*C+5) // chunk counter carries into its second byte
+				if c.Thorough() {
+					for n := 2; n <= 400; n++ { // every armor line / column phase
+						if n != 47 && n != 48 && n != 49 {
+							sizes = append(sizes, n)
+						}
+					}
+					sizes = append(sizes, 2*C-1, 2*C, 3*C-1, 3*C, 3*C+1)
+				}
 			}
 			for _, n := range sizes {
 				plain := lab.Plain(n, c.Seed)
